@@ -62,6 +62,14 @@ def run(ctx) -> None:
     c16._check_range_end(ctx)
     c14.check_occurs(ctx)
     mod = ctx.p.module(XM)
+    # the schema keyword `pattern` is a search; it agrees with the fully matching invariant only for patterns anchored as a whole,
+    # which the front end enforces (shared with C06)
+    ctx.rule("ANCHOR-ATOMS", "the front end accepts a pattern only with one top-level alternative, first ^ and last $ (shared with C06)", floor=4)
+    from ..rules import anchor as _anchor
+    _anchor.check_anchor_agreement(ctx, "ANCHOR-ATOMS")
+    ctx.rule("HEX-CLASS", "the regular expressions that find \\x / \\u / \\U escapes admit hexadecimal digits of both cases", floor=4)
+    from ..rules import asciire as _are
+    _are.check_hex_classes(ctx, "HEX-CLASS", mod, 4)
     for f in mod.functions.values():
         err.check_err12(ctx, f, "ERR1", "ERR1v", "ERR2")
         err.check_err3(ctx, f, "ERR3")
